@@ -318,6 +318,15 @@ func (c *compiler) compileType(y *Type, parent Leafable, isUnion bool) error {
 			return fmt.Errorf("%s - %s path does not lead to a leaf or leaf-list", SchemaPath(parent), y.ident)
 		} else {
 			y.delegate = hasType.Type()
+			// leafrefs that point at each other in a circle have no type in the end
+			for d, steps := y.delegate, 0; d != nil && (d.format == val.FmtLeafRef || d.format == val.FmtLeafRefList); d, steps = d.delegate, steps+1 {
+				if d == y || steps > 64 {
+					return fmt.Errorf("%s - %s path %s leads back to the leafref itself", SchemaPath(parent), y.ident, y.path)
+				}
+				if d.delegate == d {
+					break
+				}
+			}
 			// the target may be in an imported module, whose leaves are not compiled otherwise
 			if target, isLeafable := resolvedMeta.(Leafable); isLeafable && y.delegate != nil && int(y.delegate.format) == 0 {
 				if err := c.compileType(y.delegate, target, false); err != nil {
